@@ -244,7 +244,7 @@ def run(ctx):
     samples = scan(ctx, trace)
     ctx.cov['samples'] = [dict(tlc_exported_case=readable(json.loads(lines[0])))] + [dict(recorded_event=v, which=k) for k, v in sorted(samples.items())]
     # 3. TLC judges every recorded response
-    vlib.judge_traces(ctx, MODULE, CFG, [trace], shard_lines=max(1500, 2 * st['cases'] // vlib.NCPU + 2), label='ociserver vs OciWire')
+    vlib.judge_traces(ctx, MODULE, CFG, [trace], shard_lines=min(30000, max(1500, 2 * st["cases"] // vlib.NCPU + 2)), label='ociserver vs OciWire')
     if not quick or os.environ.get('VERIF_CANARY'):
         canary(ctx, trace)
     ctx.assumptions += [
